@@ -99,6 +99,12 @@ def memReaderDecNext (p : MRsd) (t : UInt8) : TOut (Slice × MRsd) := do
   let p1 ← skipTplAt memReaderBackend Facts.defaultRecursionDepth t { p with n := 0 }
   pure (p1.b.sub 0 p1.n, { p1 with h := p1.h.assert (decide (p1.n ≤ p1.b.cap)) })
 
+/-- ReaderSkipDecoder.Release() followed by the pool handing the SAME decoder back to
+    NewReaderSkipDecoder(r) (skipdecoder.go:163-174): `p.Reset(nil)`, pool Put / Get, `p.Reset(r)`.
+    The decoder RETAINS its buffer `p.b` ("no need to free p.b, will make use of p.b without
+    reallocation") and frees nothing; only `p.n` is reset. -/
+def MRsd.release (p : MRsd) : MRsd := { p with n := 0 }
+
 /-! ## span cache (lang/span/span.go) -/
 
 structure Span where
